@@ -31,6 +31,14 @@ type Profile struct {
 	ReorderDisable bool
 	// Cosmetics allows style noise in the initial tree.
 	Cosmetics bool
+	// ChainOneIn > 0: one history in ChainOneIn contains a directed chain: 2-4
+	// consecutive steps on ONE file drawn from {pure rename, edit, exact revert of
+	// the previous edit, rename back, delete + re-add with the same content,
+	// comment-only edit + revert}, each step its own commit(s). Chains produce
+	// files that are byte-identical to their base version after a non-trivial
+	// path history, and files at the same path whose bytes differ but parse to
+	// identical rules.
+	ChainOneIn int
 }
 
 var pathPool = []string{"rules/a.yml", "rules/b.yml", "rules/c.yml", "rules/d.yml", "rules/sub/e.yml", "rules/sub/f.yml", "top.yml", "alerts/g.yaml"}
@@ -650,7 +658,23 @@ func Gen(t *rapid.T, p Profile) History {
 
 	// branch
 	nb := s.intn("ncommits", 1, max(1, p.MaxBranchCommits))
-	for ci := 0; ci < nb; ci++ {
+	chainAt := -1
+	if p.ChainOneIn > 0 && s.chance("chain", p.ChainOneIn) {
+		// the chain comes last in half of the cases, so its shape survives to HEAD
+		if s.chance("chainlast", 2) {
+			nb = s.intn("nbefore", 0, 2)
+			chainAt = nb
+		} else {
+			chainAt = s.intn("chainat", 0, nb)
+		}
+	}
+	for ci := 0; ci <= nb; ci++ {
+		if ci == chainAt {
+			h.Branch = append(h.Branch, s.chain()...)
+		}
+		if ci == nb {
+			break
+		}
 		kind := s.weighted("ckind", map[string]int{
 			"rename": p.Weights["rename"], "rename-edit": p.Weights["rename-edit"], "edit": 10,
 		}, nil)
@@ -723,4 +747,117 @@ func Gen(t *rapid.T, p Profile) History {
 		}
 	}
 	return h
+}
+
+// chain: see Profile.ChainOneIn.
+func (s *gstate) chain() []Commit {
+	var out []Commit
+	start := s.pickPath("chainfile")
+	cur := start
+	var saved *File // file content before the last not yet reverted edit
+	n := 0
+	commit := func(msg string, renames [][2]string) {
+		n++
+		out = append(out, Commit{Msg: fmt.Sprintf("chain step %d: %s", n, msg), Ops: s.ops, Renames: renames, Tree: s.snapshot()})
+		s.ops = nil
+	}
+	s.ops = nil
+	steps := s.intn("chainsteps", 2, 4)
+	for i := 0; i < steps; i++ {
+		w := map[string]int{"rename": 3, "edit": 3, "cosmetic-revert": 2}
+		if saved != nil {
+			w["revert"] = 8
+		}
+		if _, taken := s.tree[start]; cur != start && !taken {
+			w["rename-back"] = 4
+		}
+		if len(s.tree) >= 2 {
+			w["del-readd"] = 2
+		}
+		if len(s.freePaths()) == 0 {
+			delete(w, "rename")
+		}
+		switch s.weighted("chainop", w, nil) {
+		case "rename":
+			free := s.freePaths()
+			to := free[s.intn("to", 0, len(free)-1)]
+			s.tree[to] = s.tree[cur]
+			delete(s.tree, cur)
+			s.log("chain-rename %s->%s", cur, to)
+			commit("rename", [][2]string{{cur, to}})
+			cur = to
+		case "rename-back":
+			s.tree[start] = s.tree[cur]
+			delete(s.tree, cur)
+			s.log("chain-rename-back %s->%s", cur, start)
+			commit("rename back", [][2]string{{cur, start}})
+			cur = start
+		case "edit":
+			c := s.tree[cur].Clone()
+			var refs []ruleRef
+			for gi, g := range s.tree[cur].Groups {
+				for ri := range g.Rules {
+					refs = append(refs, ruleRef{cur, gi, ri})
+				}
+			}
+			if len(refs) == 0 {
+				r := s.genRule()
+				s.addRuleTo(cur, r)
+				s.log("chain-edit %s rule-add %q", cur, r.Name)
+			} else {
+				rr := refs[s.intn("rule", 0, len(refs)-1)]
+				what := s.modRule(s.rule(rr))
+				s.log("chain-edit %s %q %s", cur, s.rule(rr).Name, what)
+			}
+			if saved == nil {
+				saved = &c
+			}
+			commit("edit", nil)
+		case "revert":
+			s.tree[cur] = saved
+			saved = nil
+			s.log("chain-revert %s", cur)
+			commit("exact revert of the edit", nil)
+		case "del-readd":
+			f := s.tree[cur]
+			delete(s.tree, cur)
+			s.log("chain-delete %s", cur)
+			commit("delete", nil)
+			s.tree[cur] = f
+			s.log("chain-readd %s", cur)
+			commit("re-add with the same content", nil)
+		case "cosmetic-revert":
+			c := s.tree[cur].Clone()
+			f := s.tree[cur]
+			rules := f.Rules()
+			what := "file-note"
+			if len(rules) > 0 && s.chance("rulecos", 2) == false {
+				gi := s.intn("grp", 0, len(f.Groups)-1)
+				if len(f.Groups[gi].Rules) > 0 {
+					ri := s.intn("rule", 0, len(f.Groups[gi].Rules)-1)
+					what = s.cosmeticRule(&f.Groups[gi].Rules[ri])
+				} else {
+					f.Note = "chain note"
+				}
+			} else if f.Note == "chain note" {
+				f.Note = ""
+			} else {
+				f.Note = "chain note"
+			}
+			if txt, _ := Render(*f); func() bool { t2, _ := Render(c); return t2 == txt }() {
+				f.Tail = (f.Tail + 1) % 3
+				what = "tail"
+			}
+			s.log("chain-cosmetic %s %s", cur, what)
+			commit("comment/whitespace-only edit", nil)
+			if s.chance("keepcos", 3) {
+				// keep the cosmetic difference: same path, other bytes, identical rules
+				continue
+			}
+			s.tree[cur] = &c
+			s.log("chain-cosmetic-revert %s", cur)
+			commit("revert of the comment/whitespace-only edit", nil)
+		}
+	}
+	return out
 }
